@@ -28,7 +28,7 @@ def sqlfluff_accepts(sql, dialect):
 def run_mut(case):
     """case: sql, dialect, silent, metadata; flags: oracle (independent parse when a result was returned)"""
     c = dict(case)
-    c["want"] = []
+    c["want"] = ["after_error"]
     rec = observe.run_case(c)
     out = {"outcome": "ok" if rec["outcome"] == "ok" else {k: rec["outcome"][k] for k in
                                                           ("exc_type", "exc_module", "is_library_exception", "inner_sqllineage", "raising", "message")},
@@ -37,6 +37,7 @@ def run_mut(case):
            "dispatch": sorted({d[0] for d in rec.get("dispatch", [])})}
     if rec["outcome"] != "ok":
         out["frames"] = rec["outcome"]["frames"]
+        out["after_error"] = rec.get("after_error")
     dialect = case.get("dialect", "ansi")
     # single statement: no separator at all and the runner itself reported exactly one statement
     single = ";" not in case["sql"] and len(rec.get("statements") or []) == 1
